@@ -338,6 +338,9 @@ func RunBatch(t *testing.T, hname, prop string, params map[string]string, base u
 		}
 		if len(br.Samples) < 3 && r.Nontrivial {
 			sm := r.Sample
+			if sm == nil {
+				sm = map[string]any{} // (a run that died in a child process reports no sample)
+			}
 			sm["seed"] = seed
 			sm["steps"] = r.Steps
 			br.Samples = append(br.Samples, sm)
@@ -691,7 +694,13 @@ func runIsolated(index int, seed uint64) RunResult {
 			return r
 		}
 	}
-	// the child died: a crash of the process under simulation
+	// the child died: a crash of the process under simulation, charged to the property whose workload ran
+	prop := "C05"
+	for i, a := range isolateArgs {
+		if a == "-prop" && i+1 < len(isolateArgs) {
+			prop = isolateArgs[i+1]
+		}
+	}
 	r.Seed = seed
 	r.Nontrivial = true
 	msg := string(b)
@@ -708,7 +717,7 @@ func runIsolated(index int, seed uint64) RunResult {
 	if len(msg) > 6000 {
 		msg = msg[:6000]
 	}
-	r.Violations = []simrt.Violation{{Class: "C05/process-crash", Key: key, Detail: msg}}
+	r.Violations = []simrt.Violation{{Class: prop + "/process-crash", Key: key, Detail: msg}}
 	r.Tape = nil
 	return r
 }
